@@ -52,12 +52,22 @@ type faultSpec struct {
 }
 
 func panicAllowedAt(op string) bool {
+	// A panic raised from a read of an input or a write of an output stands for a panic anywhere in
+	// pdfcpu's own parsing / processing / serialising code that runs between those calls (the
+	// realistic origin of panics). Metadata calls (open, stat, mkdir, chmod, close, rename, remove)
+	// are steps of the staging protocol itself: a panic inside them is not modelled.
 	switch op {
-	case "openfile", "read", "readat", "write", "writeat", "stat", "lstat", "mkdir", "readdir", "sync", "fstat":
+	case "read", "readat", "write", "writeat":
 		return true
 	}
-	return false // close / remove / removeall / rename / chmod are cleanup or commit steps: a panic inside them is a double fault
+	return false
 }
+
+var dataOps = map[string]bool{"read": true, "readat": true, "write": true, "writeat": true}
+
+// bareCopy: operations whose data path is io.Copy between two *os.File: there is no pdfcpu code between
+// a read and a write that could panic, so the panic model does not apply.
+func bareCopy(op string) bool { return strings.HasPrefix(op, "pdfcpu.CopyFile") }
 
 func mkFault(fs faultSpec) *osmon.Fault {
 	switch fs.kind {
@@ -66,9 +76,9 @@ func mkFault(fs faultSpec) *osmon.Fault {
 	case "short":
 		return &osmon.Fault{At: fs.k, Kind: osmon.ShortWrite}
 	case "panic":
-		return &osmon.Fault{At: fs.k, Kind: osmon.PanicPlain}
+		return &osmon.Fault{At: fs.k, Kind: osmon.PanicPlain, OnlyOps: dataOps}
 	case "faultpanic":
-		return &osmon.Fault{At: fs.k, Kind: osmon.PanicValue, Value: fault.Panic{Err: errors.New("verif: injected fault.Panic")}}
+		return &osmon.Fault{At: fs.k, Kind: osmon.PanicValue, Value: fault.Panic{Err: errors.New("verif: injected fault.Panic")}, OnlyOps: dataOps}
 	}
 	panic("bad kind")
 }
@@ -108,7 +118,8 @@ func items() []item {
 func parent(t *vk.T) {
 	t.Rule("case = (operation, path scenario, fault kind, index k of the faulted filesystem call); every case re-runs the real API call with one injected fault (EIO at call k; short write+ENOSPC; plain panic; fault.Panic) and compares the sandbox tree with the pristine tree; non-trivial = the fault was actually reached and the operation failed or panicked; distinct by (op, scenario, kind, k)")
 	t.Assume("single faults only; faults are injected at package-os calls on paths under the sandbox (fonts/config reads elsewhere are out of scope)")
-	t.Assume("panics are injected at open/read/write/stat/mkdir/sync calls only: a panic inside close/remove/rename is a fault in the cleanup step itself")
+	t.Assume("panics are injected at read and write calls only (they stand for a panic anywhere in pdfcpu's processing between two data-moving calls); a panic inside the staging protocol's own metadata calls (open, stat, chmod, close, rename, remove) is not modelled")
+	t.Assume("pdfcpu.CopyFile is io.Copy between two files: no panic is injected there (no pdfcpu processing code runs between its reads and writes)")
 	t.Assume("excuse: when the injected fault is on the remove of path P itself, P may remain if the returned error names P")
 	t.Assume("multi-output operations: completed earlier outputs that remain after a later failure are reported per operation (class earlier-outputs-kept); partial files, staging leftovers and damaged inputs are violations of their own class")
 	fx := filepath.Join(t.Scratch(), "fx")
@@ -188,7 +199,7 @@ func runItem(t *vk.T, fx, root string, idx int, it item) {
 		if e.Op == "write" || e.Op == "writeat" {
 			specs = append(specs, faultSpec{k, "short"})
 		}
-		if panicAllowedAt(e.Op) {
+		if panicAllowedAt(e.Op) && !bareCopy(it.op.Name) {
 			specs = append(specs, faultSpec{k, "panic"}, faultSpec{k, "faultpanic"})
 		}
 	}
@@ -284,6 +295,23 @@ func judge(t *vk.T, c *fileprop.Case, fs faultSpec, ev *osmon.Event, ferr error,
 			bad = append(bad, ch)
 		}
 		if len(bad) > 0 {
+			// One root cause shows up under whichever multi-output operation the (map-ordered) object
+			// loading happens to hit: an I/O error on a read of the input absorbed by the reader's
+			// repair path. Keyed by symptom, not by operation, so that the key is stable across runs.
+			onlyMissing := ev != nil && (ev.Op == "read" || ev.Op == "readat") && fs.kind == "errno"
+			for _, ch := range bad {
+				if ch.Kind != "removed" || !inList(c.Dest, ch.Path) {
+					onlyMissing = false
+				}
+			}
+			if onlyMissing {
+				for _, ch := range bad {
+					rp.Changes = append(rp.Changes, ch.String())
+				}
+				t.Violate("fault=errno/at=read-of-input/class=success-with-missing-output", fmt.Sprintf("%s %s: EIO at fs call %d (%s) was absorbed: the call returned nil but %s",
+					c.Op.Name, c.Sc, fs.k, rp.Call, strings.Join(rp.Changes, "; ")), rp)
+				return
+			}
 			report("success-state-differs", bad)
 		}
 		return
@@ -333,6 +361,15 @@ func judge(t *vk.T, c *fileprop.Case, fs faultSpec, ev *osmon.Event, ferr error,
 	}
 	sort.Strings(classes)
 	for _, cl := range classes {
+		if cl == "earlier-outputs-kept" || cl == "earlier-outputs-replaced" {
+			// documented per-output atomicity of multi-output operations: one finding per operation
+			for _, ch := range byClass[cl] {
+				rp.Changes = append(rp.Changes, ch.String())
+			}
+			t.Violate("op="+c.Op.Name+"/class=earlier-outputs-kept", fmt.Sprintf("%s %s: fault %s at fs call %d (%s); error %q panic %q; outputs completed before the failing step remain: %s",
+				c.Op.Name, c.Sc, fs.kind, fs.k, rp.Call, rp.Err, rp.Panic, strings.Join(rp.Changes, "; ")), rp)
+			continue
+		}
 		report(cl, byClass[cl])
 	}
 }
@@ -346,12 +383,23 @@ func completeOutput(c *fileprop.Case, p string, after fsx.Tree) bool {
 	}
 	got := after[p]
 	full := filepath.Join(c.Root, filepath.FromSlash(p))
-	if strings.HasSuffix(p, ".pdf") {
-		if api.ValidateFile(full, opcat.DefaultConf()) != nil {
+	head := make([]byte, 5)
+	if f, err := os.Open(full); err == nil {
+		f.Read(head)
+		f.Close()
+	}
+	if string(head) == "%PDF-" {
+		if err := api.ValidateFile(full, opcat.DefaultConf()); err != nil {
+			if os.Getenv("VERIF_DEBUG") != "" {
+				fmt.Fprintf(os.Stderr, "completeOutput(%s): validate: %v\n", p, err)
+			}
 			return false
 		}
 		n1, e1 := api.PageCountFile(full)
 		_ = n1
+		if os.Getenv("VERIF_DEBUG") != "" {
+			fmt.Fprintf(os.Stderr, "completeOutput(%s): pagecount err=%v size got=%d want=%d\n", p, e1, got.Size, want.Size)
+		}
 		return e1 == nil && abs64(got.Size-want.Size) <= 64
 	}
 	return got.Size == want.Size
